@@ -351,6 +351,8 @@ class InitEccAuthBlock(AuthBlock):
     def unpack(
         cls, raw: bytes, ext_encryptors: Iterable[KeySelectorEncryptor] = ()
     ) -> tuple[AuthBlock, bytes]:
+        if len(raw) == 0:
+            raise Bec2FileFormatError("Empty ECC AuthBlock")
         key_selector = raw[0]
         encryptor = cls.select_encryptor(
             ext_encryptors, encryptor_filter=lambda e: e.key_selector == key_selector
